@@ -9,6 +9,14 @@ LEVEL_NOTE = ("Trusted base: clang 14 front end and CFG builder, the gsa-extract
               "Assumes the shipped configuration (GALOIS_USE_LONGJMP_ABORT, NDEBUG).")
 
 CHECKS = {
+    "C12": ("narrow: symbolic byte-offset interpretation of every .gr layout site (FileGraph fromMem/fromArrays/partFromFile/"
+            "rawBlockSize, FileGraphWriter, OCFileGraph, OfflineGraph reader and writer, BufferedGraph, LC_CSR_Graph reader, "
+            "dist-graph-convert) for both format versions and both parities of the edge count against the canonical layout; "
+            "bytes-per-element vs buffer element type; version-word dispatch table; Endian.h mirror pairs under both byte "
+            "orders. Decides the layout arithmetic and dispatch, not file contents: text parsers, transforming conversions and "
+            "value-level round trips are not decided.",
+            "abstract interpretation of byte offsets as polynomials (LAYOUT) over clang AST/CFG facts, plus dispatch-table, "
+            "width and sibling rules", "8 C12"),
     "C16": ("narrow: exhaustive evaluation of structural necessary conditions on every ParallelSTL instantiation of the driver: "
             "block-claiming state only under its lock, disjoint blocks from the two ends, the no-leftover test consistent with "
             "the constructor's sentinels, serial clean-up of the leftover span on every other path, worker re-claims exactly on "
